@@ -38,7 +38,8 @@ def run(chk):
             rule_front(chk, comp)
     rule_confine(chk)
     if bp:
-        rule_arms(chk, bp)
+        if not rule_build_eval(chk):
+            rule_arms(chk, bp)
     if not rule_bindings_eval(chk):
         rule_peel(chk)
     import c05
@@ -361,6 +362,93 @@ def rule_bindings_eval(chk):
                sample={"shape": sname})
     chk.ob("C18.bindings/slot-and-flags", not bad_other, bad_other or "group, slot and bindless flag are carried over alike", "hlsl / msl analyse_bindings")
     chk.floor("C18.floor/binding-cases", n, 200, "resource declarations evaluated on both exporters")
+    return True
+
+
+def rule_build_eval(chk, prefix="C18.build"):
+    """build_pipeline read as a table (compilemodel.run_build): for every target, with and without a pipeline, the module
+    is selected, then bound, then exported (the exporter sees the module that went through both, and `for_spirv` only for
+    Vulkan); what comes back carries the exporter's text and description, the pipeline's state, and one stage per
+    pipeline stage in order with the stage kind and thread-group size copied - alike for every target; without a pipeline
+    there are no stages and no state; a failing exporter is returned as a rendered diagnostic."""
+    import compilemodel as CM
+    f = chk.facts
+    bp = f.fn("build_pipeline", "rssl")
+    if not bp:
+        return False
+    targets = [t for t in (f.variants("Target", "rssl") or []) if t != "MetalBytecode"]
+    per = {}
+    bad = {}
+    n = 0
+    for t in targets:
+        hl = t.startswith("Hlsl")
+        exp = "export_to_hlsl" if hl else "export_to_msl"
+        for wp in (True, False):
+            o = CM.run_build(f, bp, t, wp)
+            r = o["result"]
+            if r[0] == "unreadable":
+                chk.note("%s: build_pipeline is not readable (%s); the shape rules decide" % (prefix, r[1]))
+                return False
+            n += 1
+            what = "%s %s" % (t, "with a pipeline" if wp else "in no-pipeline mode")
+            if r[0] == "aborts":
+                bad.setdefault("total", "build_pipeline aborts for %s (%s)" % (what, r[1]))
+                continue
+            if r[0] != "Ok":
+                bad.setdefault("total", "build_pipeline fails for %s although every stage succeeded (%s)" % (what, r[1:]))
+                continue
+            names = [c[0] for c in o["calls"]]
+            want_calls = (["select_pipeline"] if wp else []) + ["assign_api_bindings", exp]
+            if names != want_calls:
+                bad.setdefault("order", "%s: the steps run are %s, must be %s" % (what, names, want_calls))
+            else:
+                ex = o["calls"][-1]
+                want_stamps = (("selected P",) if wp else ()) + ("bound",)
+                if ex[1] != want_stamps:
+                    bad.setdefault("order", "%s: the exporter is handed a module that went through %s, must be %s (the selected pipeline with its binding slots assigned)" % (what, list(ex[1]), list(want_stamps)))
+                if hl and ex[2] is not (t == "HlslForVulkan"):
+                    bad.setdefault("flavour", "%s: export_to_hlsl is called with for_spirv = %s" % (what, ex[2]))
+                if wp and o["calls"][0][1] != "P":
+                    bad.setdefault("order", "%s: select_pipeline is asked for %r, the pipeline being built is P" % (what, o["calls"][0][1]))
+            fl = r[1]
+            data = bytes(fl.get("data") or []).decode("utf-8", "replace") if isinstance(fl.get("data"), list) else None
+            if data != "text from " + exp:
+                bad.setdefault("payload", "%s: the data returned is %r, the exporter produced %r" % (what, data, "text from " + exp))
+            md = fl.get("metadata")
+            if not (hasattr(md, "fields") and md.fields.get("tag") == "description from " + exp):
+                bad.setdefault("payload", "%s: the metadata returned is not the exporter's pipeline description" % what)
+            gs = fl.get("graphics_pipeline_state")
+            got_state = gs.fields["0"].fields.get("tag") if hasattr(gs, "variant") and gs.variant == "Some" and hasattr(gs.fields["0"], "fields") else None
+            if got_state != ("state of P" if wp else None):
+                bad.setdefault("state", "%s: graphics_pipeline_state is %r, must be %r" % (what, got_state, "state of P" if wp else None))
+            st = []
+            for s_ in fl.get("stages") or []:
+                tg = s_.fields.get("thread_group_size")
+                st.append((getattr(s_.fields.get("stage"), "variant", None), s_.fields.get("entry_point"), tuple(tg.fields["0"]) if hasattr(tg, "variant") and tg.variant == "Some" else None))
+            want = [(k, None, tg) for k, _fid, tg in o["stages"]] if wp else []
+            if [(k, tg) for k, _e, tg in st] != [(k, tg) for k, _e, tg in want]:
+                bad.setdefault("stages", "%s: reported stages (kind, thread-group size) are %s, the pipeline declares %s" % (what, [(k, tg) for k, _e, tg in st], [(k, tg) for k, _e, tg in want]))
+            elif hl and [e for _k, e, _t in st] != ["function%d" % fid for _k, fid, _t in o["stages"]][:len(st)]:
+                bad.setdefault("stages", "%s: reported entry points are %s, the stages name functions %s" % (what, [e for _k, e, _t in st], [fid for _k, fid, _t in o["stages"]]))
+            elif not hl and len({e for _k, e, _t in st}) != len(st):
+                bad.setdefault("stages", "%s: two stages report the same entry point %s" % (what, [e for _k, e, _t in st]))
+            per[(t, wp)] = [(k, tg) for k, _e, tg in st]
+        o = CM.run_build(f, bp, t, True, fail_export=True)
+        r = o["result"]
+        if r[0] == "unreadable":
+            chk.note("%s: build_pipeline is not readable on the export-error path (%s)" % (prefix, r[1]))
+            return False
+        n += 1
+        if not (r[0] == "Err" and r[1] == "Text" and r[2] == "rendered export error"):
+            bad.setdefault("errors", "%s: a failing exporter is not returned as its rendered diagnostic (%s)" % (t, r[:3]))
+    vals = {wp: {tuple(v) for (t, w), v in per.items() if w == wp} for wp in (True, False)}
+    if any(len(v) > 1 for v in vals.values()):
+        bad.setdefault("stages", "the targets do not report the same stages / thread-group sizes for one pipeline: %s" % {t: v for (t, w), v in per.items() if w})
+    for key, text in (("order", "select, bind, export in this order; the exporter sees the selected and bound module"), ("flavour", "for_spirv exactly for Vulkan"),
+                      ("payload", "text and description come from the exporter"), ("state", "pipeline state copied"), ("stages", "one stage per pipeline stage, alike for every target"),
+                      ("errors", "export errors are returned rendered"), ("total", "no abort")):
+        chk.ob("%s/%s" % (prefix, key), key not in bad, bad.get(key) or text, where(bp), sample={"aspect": key, "evaluations": n})
+    chk.floor(prefix.split(".")[0] + ".floor/build-evaluations", n, 9, "build_pipeline evaluations", where(bp))
     return True
 
 
